@@ -150,6 +150,9 @@ Inputs(fn) ==
              <<a, b>> \in {ab \in Lat2(3) \X Lat2(3) : ab[1] # ab[2] /\ (Big \/ ab[1][1] <= 1)}}
     [] fn = "point_in_polygon" ->
          {LET P == Scale2(p, 2) IN [fn |-> fn, den |-> 2, poly |-> P, pts |-> TestPts2(P)] : p \in Polys}
+    [] fn = "point_in_cell" ->
+         {LET P == Scale2(p, 2) IN [fn |-> fn, den |-> 2, poly |-> P, pts |-> TestPts2(P), planar |-> b] :
+             <<p, b>> \in (UNION {{BasePolys[i], Rev(BasePolys[i])} \cup (IF Big THEN Variants(BasePolys[i]) ELSE {}) : i \in 1..Len(BasePolys)}) \X BOOLEAN}
     [] fn = "point_in_polyhedron" ->
          {LET F == Scale3f(Polyhedra[k], 2)
           IN [fn |-> fn, den |-> 2, faces |-> F, pts |-> {p \in BoxAround(F, 2) : ~OnSurface(F, p)}] :
@@ -166,7 +169,7 @@ Inputs(fn) ==
                            v[1] <= v[2] /\ (Big \/ (v[3] = 1 /\ (v[1] + v[2] + v[4]) % 2 = 0))}}
     [] fn = "points_are_planar" ->
          {[fn |-> fn, den |-> 1, pts |-> <<a, b, c, d>>] :
-             <<a, b, c, d>> \in {w \in (IF Big THEN {<<0,0,0>>, <<1,0,1>>} ELSE {<<0,0,0>>})
+             <<a, b, c, d>> \in {w \in {<<0,0,0>>}
                                           \X (IF Big THEN Lat3(2) ELSE {<<1,0,0>>, <<1,1,0>>, <<0,1,2>>, <<2,1,1>>})
                                           \X Lat3(2) \X Lat3(2) : ~Collinear(w)}}
     [] fn = "points_are_planar_normal" ->
@@ -174,11 +177,11 @@ Inputs(fn) ==
              <<a, b, c, nn>> \in (IF Big THEN {<<0,0,0>>, <<1,2,0>>} ELSE {<<1,2,0>>}) \X Lat3(2) \X Lat3(2) \X
                                       (IF Big THEN {<<0,0,1>>, <<1,0,0>>, <<1,-1,0>>, <<1,1,-1>>, <<2,0,1>>} ELSE {<<0,0,1>>, <<1,-1,0>>, <<1,1,-1>>})}
     [] fn = "points_are_collinear" ->
-         {[fn |-> fn, den |-> 1, pts |-> w] : w \in (IF Big THEN Lat3(2) ELSE {<<0,0,0>>, <<1,2,0>>}) \X Lat3(2) \X Lat3(2)}
+         {[fn |-> fn, den |-> 1, pts |-> w] : w \in (IF Big THEN Lat3(1) ELSE {<<0,0,0>>, <<1,2,0>>}) \X Lat3(2) \X Lat3(2)}
          \cup {[fn |-> fn, den |-> 1, pts |-> w] :
                  w \in (IF Big THEN {<<0,0,0>>, <<2,1,0>>} ELSE {<<0,0,0>>})
                           \X (IF Big THEN Lat3(2) ELSE {<<0,0,0>>, <<1,0,0>>, <<1,1,2>>, <<0,2,1>>})
-                          \X (IF Big THEN Lat3(2) ELSE Lat3(1)) \X Lat3(2)}
+                          \X Lat3(1) \X Lat3(2)}
     [] fn = "sort_point_pairs" ->
          {[fn |-> fn, circular |-> TRUE, lines |-> Scramble(CycleCols(n), f, fl)] :
              <<n, f, fl>> \in UNION {{n} \X Perms(n) \X [1..n -> BOOLEAN] : n \in ChainLens \ {2}}}
@@ -201,7 +204,7 @@ Inputs(fn) ==
                                                               Big \/ (kj[1] + kj[2]) % 2 = 0}}}
     [] fn = "sort_triangle_edges" ->
          {[fn |-> fn, tris |-> [i \in 1..Len(TriFamilies[k]) |-> Reorder(TriFamilies[k][p[i]], o[i])]] :
-             <<k, p, o>> \in UNION {{k} \X {q \in Perms(Len(TriFamilies[k])) : IF Big THEN q[1] <= 2 ELSE q = [i \in 1..Len(TriFamilies[k]) |-> i]}
+             <<k, p, o>> \in UNION {{k} \X {q \in Perms(Len(TriFamilies[k])) : IF Big THEN q[1] = 1 ELSE q = [i \in 1..Len(TriFamilies[k]) |-> i]}
                                       \X {o \in [1..Len(TriFamilies[k]) -> TriOrders] : Big \/ o[1] \in {<<1,2,3>>, <<1,3,2>>}} :
                                       k \in 1..Len(TriFamilies)}}
     [] OTHER -> {}
